@@ -23,6 +23,7 @@ type ConcOpts struct {
 	HotKeys    [2]int
 	AllowStall bool
 	Resize     bool // a third of the runs: filler keys around the table's grow / shrink thresholds
+	Rounds     bool // C03: the clock only moves at barriers between rounds; deadline-aware lin model
 	SweepCheck bool // C13: advance the clock by more than a tick before the final CleanUp and demand a clean sweep
 	NonTrivial func(o *ConcOutcome) bool
 }
@@ -43,6 +44,7 @@ type HistOp struct {
 	Ret  uint64
 	Res  Result
 	Done bool
+	Now  int64 // simulated clock when the operation was invoked
 }
 
 type ConcOutcome struct {
@@ -94,6 +96,10 @@ type concRun struct {
 	execAddr          byte
 	stop              bool
 	taskFinish        map[int]uint64
+	barArrived        int
+	barGen            int
+	barAdvance        int64
+	barAddr           byte
 }
 
 func (cr *concRun) fail(props []string, rule string, key int, format string, a ...any) {
@@ -198,7 +204,7 @@ func (cr *concRun) main() {
 	for i := range cc.Prefill {
 		op := &cc.Prefill[i]
 		mainCtx.opIdx, mainCtx.opKind, mainCtx.op = i, op.Kind, op
-		h := &HistOp{Task: -1, Idx: i, Op: op, Call: w.Tick()}
+		h := &HistOp{Task: -1, Idx: i, Op: op, Call: w.Tick(), Now: w.Now}
 		h.Res = r.Exec(op)
 		h.Ret = w.Tick()
 		h.Done = true
@@ -214,8 +220,13 @@ func (cr *concRun) main() {
 			simrt.Cur().Tag = ctx
 			for i := range ops {
 				op := &ops[i]
+				if op.Kind == "barrier" {
+					ctx.opIdx, ctx.opKind, ctx.op = -1, "", nil
+					cr.barrier(len(cc.Tasks), op.D)
+					continue
+				}
 				ctx.opIdx, ctx.opKind, ctx.op = i, op.Kind, op
-				h := &HistOp{Task: ti, Idx: i, Op: op, Call: w.Tick()}
+				h := &HistOp{Task: ti, Idx: i, Op: op, Call: w.Tick(), Now: w.Now}
 				cr.hist = append(cr.hist, h)
 				h.Res = r.Exec(op)
 				h.Ret = w.Tick()
@@ -343,5 +354,28 @@ func (cr *concRun) quiesce() {
 			return
 		}
 		cr.probe["stalled-loader-released-at-quiescence"]++
+	}
+}
+
+// barrier: all client tasks meet; the last one to arrive moves the clock (the property's
+// "the clock only moves between operations") and releases the others.
+func (cr *concRun) barrier(n int, advance int64) {
+	if advance > cr.barAdvance {
+		cr.barAdvance = advance
+	}
+	cr.barArrived++
+	if cr.barArrived == n {
+		cr.barArrived = 0
+		cr.barGen++
+		d := cr.barAdvance
+		cr.barAdvance = 0
+		cr.r.Advance(d)
+		cr.probe["barrier-clock-advances"]++
+		simrt.WakeAll(unsafe.Pointer(&cr.barAddr))
+		return
+	}
+	gen := cr.barGen
+	for cr.barGen == gen {
+		simrt.BlockOn("barrier", unsafe.Pointer(&cr.barAddr))
 	}
 }
